@@ -116,6 +116,23 @@ class C01(ParserSessionProp):
                                  f'the reference finds a derivation with score {lb:.6f}'),
                         signature={'kind': 'false_failure'}))
                     return out
+                if cut and lb is not None and log is not None and len(log):
+                    # the budget ran out before any complete parse was accepted: until then every popped edge
+                    # must still rank at least as high as the best complete derivation (admissible estimates),
+                    # otherwise the search has passed the point where it had to find it
+                    mass = float(numpy.abs(world.tag0[sid]).max(axis=1).sum() + numpy.abs(world.dep0[sid]).max(axis=1).sum())
+                    tol = refparser.score_tolerance(mass) + 2e-5 * max(1.0, abs(lb))
+                    prio = (log['in_score'] + log['out_score']).astype(numpy.float64)
+                    bump(stats, 'budget_cut_failures_checked_against_optimum')
+                    if float(prio.min()) < lb - tol:
+                        k = int(numpy.argmin(prio))
+                        out.append(Violation(
+                            oracle='search_passed_the_optimum_without_finding_it',
+                            message=(f'sentence {sid} ({world.n(sid)} words) reported as failed after the whole budget of '
+                                     f'{p["max_step"]} steps; pop {k} already had priority {prio[k]:.6f}, below the score '
+                                     f'{lb:.6f} of a complete derivation the search therefore had to accept earlier'),
+                            signature={'kind': 'passed_optimum'}))
+                        return out
                 bump(stats, 'failures_confirmed')
                 continue
             score = resp[0].score
